@@ -56,4 +56,10 @@ impl TxtProperty {
     pub fn val(&self) -> (r: Option<&[u8]>)
         ensures self.val is None <==> r is None, r is Some ==> r->Some_0@ == self.val->Some_0@ && r->Some_0@.len() <= isize::MAX,
     { unimplemented!() }
+    // real body: `self.val.as_ref().map_or("", |v| std::str::from_utf8(&v[..]).unwrap_or_default())`: the value as text if it
+    // is valid UTF-8, the empty string otherwise (and for a key without value)
+    #[verifier::external_body]
+    pub fn val_str(&self) -> (r: &str)
+        ensures r@.len() == 0 || (self.val is Some && utf8(r@) == self.val->Some_0@),
+    { unimplemented!() }
 }
